@@ -336,11 +336,27 @@ func (x *SExec) apply(i int, op SOp) *Fail {
 				cpFail++
 			}
 		}
+		var wf *Fail
+		st.PromoWindow = nil
+		if op.N > 0 && cpFail == 0 {
+			// foreground writes between the verification and the end of the rebuild
+			st.PromoWindow = func() {
+				x.Mode[n] = types.RW
+				for q := 0; q < int(op.N) && wf == nil; q++ {
+					wf = x.fgWrite(i, op.Seed, q+1, op.Reps == 1)
+				}
+				x.Labels["promote:writes-before-setrebuilding-false"]++
+			}
+		}
 		err := st.Promote(src, n)
+		st.PromoWindow = nil
 		for _, nd := range st.Nodes {
 			nd.ClearFaults()
 		}
-		x.tracef("promote n%d from n%d cpfail=%v -> %v", n, src, op.Fail, err)
+		x.tracef("promote n%d from n%d cpfail=%v windowwrites=%d -> %v", n, src, op.Fail, op.N, err)
+		if wf != nil {
+			return wf
+		}
 		if err != nil {
 			return sfail("promote|refused", fmt.Sprintf("rebuild of n%d from n%d failed: %v", n, src, err), "C07", "C03")
 		}
@@ -497,6 +513,53 @@ func (x *SExec) apply(i int, op SOp) *Fail {
 				if mode == types.ERR {
 					x.Frozen[n] = st.Nodes[n].LogLen("write", "read", "sync", "unmap")
 				}
+			}
+		}
+	case "addrace":
+		// two add requests in flight at once: both are admitted (or not) while
+		// the other one is connecting to its replica; the bookkeeping invariants
+		// (no duplicate, at most RF, one rebuilding replica) must hold afterwards
+		a, b := op.Node%len(st.Nodes), int(op.N)%len(st.Nodes)
+		if x.woNode() >= 0 || x.listed() >= x.P.RF || x.listed() == 0 || x.Mode[a] != "" || x.Mode[b] != "" {
+			return nil
+		}
+		gate := make(chan struct{})
+		st.Fac.setGate(gate)
+		res := make(chan error, 2)
+		base := st.Fac.nCreates()
+		waitCreates := func(k int) {
+			for t0 := time.Now(); st.Fac.nCreates() < base+k && len(res) == 0 && time.Since(t0) < 2*time.Second; {
+				time.Sleep(time.Millisecond)
+			}
+		}
+		go func() { res <- c.AddReplica(st.Nodes[a].Addr) }()
+		waitCreates(1)
+		go func() { res <- c.AddReplica(st.Nodes[b].Addr) }()
+		waitCreates(2)
+		inFlight := st.Fac.nCreates() - base
+		close(gate)
+		st.Fac.setGate(nil)
+		var errs []error
+		for k := 0; k < 2; k++ {
+			select {
+			case e := <-res:
+				errs = append(errs, e)
+			case <-time.After(60 * time.Second):
+				return sfail("addrace|hangs", "AddReplica did not return within 60 s", "C18", "C14")
+			}
+		}
+		x.tracef("addrace n%d n%d (in flight together: %d) -> %v", a, b, inFlight, errs)
+		if inFlight >= 2 {
+			x.Labels["addrace:both-in-flight"]++
+		}
+		for _, n := range []int{a, b} {
+			if m := st.Mode(n); m == types.WO && x.Mode[n] == "" {
+				x.Mode[n] = types.WO
+				x.AttAck[n] = len(x.Acked)
+				x.AttLog[n] = len(st.Nodes[n].LogCopy())
+				delete(x.subBlockWO, n)
+				delete(x.Frozen, n)
+				x.Labels["add:ok"]++
 			}
 		}
 	case "errio":
@@ -1580,7 +1643,14 @@ func (x *SExec) doRebuild(i int, op SOp) *Fail {
 			return sfail("rebuild|updatelunmap", lerr.Error(), "C07")
 		}
 		if op.Str == "verifyfail" {
-			d.FailRest("setreplicamode", 1)
+			// one of the two requests the verification sends to the rebuilt
+			// replica fails: making it RW, or equalising its revision counter
+			if op.Seed%2 == 0 {
+				d.FailRest("setreplicamode", 1)
+			} else {
+				d.FailRest("setrevisioncounter", 1)
+				x.Labels["rebuild:setrevisioncounter-fails"]++
+			}
 		}
 		verr := st.C.VerifyRebuildReplica(d.Addr)
 		d.ClearFaults()
@@ -1620,11 +1690,15 @@ func (x *SExec) doRebuild(i int, op SOp) *Fail {
 		}
 		return nil
 	}
+	// RW for the controller, still flagged rebuilding on the replica: writes land here too
+	x.Mode[dst] = types.RW
+	promoted = true
+	if f := writes(op.N); f != nil {
+		return f
+	}
 	if err := d.S.SetRebuilding(false); err != nil {
 		return sfail("rebuild|setrebuilding-false", err.Error(), "C07")
 	}
-	x.Mode[dst] = types.RW
-	promoted = true
 	x.Labels["promote:ok"]++
 	x.Labels["rebuild:promoted"]++
 	if f := writes(op.N); f != nil {
